@@ -75,24 +75,15 @@ Proof. exact overload_only_refuted. Qed.
 Print Assumptions C01_overload_only_refuted.
 
 (* Visibility: the ladders regenerated from mixins.py agree with the documented table on every input
-   (finite domain: 3 * 2^10 * 5 inputs, by reflection), is_public modulo finding F4 (empty __all__). *)
+   (finite domain: 3 * 2^10 * 5 inputs, by reflection). *)
 Theorem C01_visibility_table_names : forall i,
   is_special i = Some (doc_is_special i) /\ is_private i = Some (doc_is_private i) /\
   is_class_private i = Some (doc_is_class_private i) /\ is_imported i = Some (doc_is_imported i).
 Proof. exact visibility_table_names. Qed.
 Print Assumptions C01_visibility_table_names.
 
-Theorem C01_visibility_table_exposure : forall i, vin_consistent i = true ->
-  is_exported i = Some (doc_is_exported i) /\ is_wildcard_exposed i = Some (doc_is_wildcard_exposed i).
-Proof. exact visibility_table_exposure. Qed.
-Print Assumptions C01_visibility_table_exposure.
-
-Theorem C01_visibility_table_modulo_known : forall i, vin_consistent i = true -> gap_empty_all i = false ->
+Theorem C01_visibility_table : forall i, vin_consistent i = true ->
+  is_exported i = Some (doc_is_exported i) /\ is_wildcard_exposed i = Some (doc_is_wildcard_exposed i) /\
   is_public i = Some (doc_is_public i).
-Proof. exact visibility_table_modulo_known. Qed.
-Print Assumptions C01_visibility_table_modulo_known.
-
-Theorem C01_visibility_table_refuted :
-  exists i, vin_consistent i = true /\ is_public i = Some true /\ doc_is_public i = false.
-Proof. exact visibility_table_refuted. Qed.
-Print Assumptions C01_visibility_table_refuted.
+Proof. exact visibility_table. Qed.
+Print Assumptions C01_visibility_table.
